@@ -107,6 +107,18 @@ CHECKS = {
         note="PARTIAL at the theorem level: dominance/equality/order are proved for the bit allocation over the sorted priority sequence; that shadow's per-column plumbing (last non-zero per column, sorting, sign restoration) feeds it correctly, and the prio/rank/first/last/min/max clauses, rest on the correspondence and the oracle. 64-bit overflow is outside the model (unbounded Int).",
         technique="Lean 4 theorem (fold invariant) + differential correspondence + clause-by-clause oracle",
         ref="§4 C13"),
+    "C10": dict(
+        text=("Theorems (Props/C10.lean), about errors() as repaired by the fix: commits for defects D4 and D5: errors_nil_iff; "
+              "single_bounds (an accepted model gives every id one pair of bounds), single_definition + sameDef_spec (every "
+              "sub-proposition id one sign, value and child-id list), no_duplicate_child (no node lists a child twice; through "
+              "the representative lemma for flatten()'s de-duplication); conversely distinct_ids_not_ambivalent (neither "
+              "ambivalence check fires on a tree with pairwise distinct ids). Tie: errors() compared with the model (accept/"
+              "reject and error kinds) on a valid stream and an adversarial stream (duplicated child, reused ids with "
+              "different bounds/sign/value/children, equal-sum bounds, -1/-2 bounds, '-' in ids, leaf named like a compound, "
+              "self reference, cycles); oracle: an independent validator implementing the statement on the snapshot."),
+        note="PARTIAL at the theorem level: the cycle clause (id graph with dict override, decided by graphlib) and the duplicate-edge check's completeness on distinct-id trees are modelled and tied but not proved. Defects D4 and D5 were found by this check and repaired.",
+        technique="Lean 4 theorem (list lemmas over the non-deduplicating walk) + differential correspondence on adversarial models + independent validator",
+        ref="§4 C10"),
     "C11": dict(
         text=("Theorems (Props/C11.lean, positional model of ge_polyhedron): redRows_sound (reported rows hold at every in-box "
               "point); redCols_forced (a column reported with a value takes it in every in-box solution, value within bounds; "
